@@ -115,6 +115,13 @@ class Gen(object):
             if y in ctx.get('nobind', ()):
                 y = [z for z in POOL if z not in ctx['nobind']][0]
             self.hints[d] = rng.choice(['assign', 'assign', 'assign', 'ann', 'walrus', 'with1'])
+            if rng.random() < 0.08:
+                # the value ENDS with an f-string that reads the name being bound (and maybe another): `y = V(d) @ f"{use(y)}"`;
+                # the reads see the bindings before this statement, the binding becomes visible after the whole value
+                self.count('fstring-value-shape')
+                rs = [['read', y, self.r()]] + (self.reads(1, 1) if rng.random() < 0.4 else [])
+                self.hints[d] = ('fstr', len(rs))
+                return rs + [['bind', y, d]]
             if rng.random() < 0.15:
                 d2 = self.s()
                 self.hints[d] = 'tuple'
@@ -577,6 +584,21 @@ class Renderer(object):
                     i += 2
                     continue
             if s[0] == 'read':
+                k = 0
+                while i + k < len(items) and items[i + k][0] == 'read' and k < 3:
+                    k += 1
+                if i + k < len(items) and items[i + k][0] == 'bind' and self.h.get(items[i + k][2]) == ('fstr', k):
+                    b = items[i + k]
+                    self.o.start()
+                    self.target(b)
+                    self.o.put(' = ')
+                    self.value(b[2])
+                    self.o.put(' @ f"{')
+                    self.events(items[i:i + k], 'use')
+                    self.o.put('}"')
+                    self.o.end()
+                    i += k + 1
+                    continue
                 # consecutive reads -> one use(...)
                 j = i
                 while j < len(items) and items[j][0] == 'read' and j - i < 3:
@@ -990,6 +1012,9 @@ class Tag(object):
 
     def __init__(self, site):
         self.site = site
+
+    def __matmul__(self, other):          # `V(d) @ f"..."`: the f-string is evaluated, the value stays the tag
+        return self
 
 
 class Abort(BaseException):
@@ -1786,6 +1811,10 @@ def known_matcher(k, what, replay):
     cls = k.get('class')
     if cls == 'walrus-in-comprehension-condition-read-by-element':
         return has_walrus_in_comp(replay.get('program'))
+    if cls == 'nonlocal-rebound-read':
+        from . import c01_exec
+        return isinstance(replay, dict) and replay.get('kind') == 'c01_exec' and 'read' in replay and \
+            c01_exec.nonlocal_rebound_read(replay['source'], replay['read'])
     return False
 
 
